@@ -1469,7 +1469,10 @@ fn section_c2(run: &Run, seed: u64, rw_leaves: usize, n_programs: usize, budget_
 				) {
 					l.c("C.rewind_roots_equal_reference", 1);
 				}
-				// push on top of the rewound MMR
+				// push on top of the rewound MMR; the reference is the truncated
+				// prefix of the base table (prefix stability) extended by the definition
+				let mut r2 = base_ref.clone();
+				r2.truncate_to_leaves(n);
 				let k = 1 + (p % 3) as usize;
 				for _ in 0..k {
 					let e = TestElem([
@@ -1479,14 +1482,14 @@ fn section_c2(run: &Run, seed: u64, rw_leaves: usize, n_programs: usize, budget_
 						prng.next_u32(),
 					]);
 					cur.push(e);
-					let r2 = RefMMR::from_elems(&cur, false);
+					let exp_pos = r2.push(&e);
 					check(
 						run,
 						l,
 						"PMMR::push",
 						"push_after_rewind",
 						&rp,
-						Ok(r2.leaf_pos[cur.len() - 1] as u64),
+						Ok(exp_pos),
 						|| pm.push(&e),
 					);
 					let hp2 = r2.peak_hashes(&r2.peaks);
@@ -1502,9 +1505,18 @@ fn section_c2(run: &Run, seed: u64, rw_leaves: usize, n_programs: usize, budget_
 						&hp2,
 					);
 				}
+				drop(pm);
+				if n <= 64 || p % 61 == 0 {
+					// self-check of truncate+push against a from-scratch rebuild
+					let r3 = RefMMR::from_elems(&cur, false);
+					l.c("ref_selfcheck.cases", 1);
+					if r3.root() != r2.root() || r3.size() != r2.size() {
+						l.c("ref_selfcheck.mismatches", 1);
+						inconc(run, "RefMMR truncate+push differs from rebuild: harness error");
+					}
+				}
+				cmp_backend(run, l, "push_after_rewind", &rp, &be, &r2, &cur);
 			}
-			let r2 = RefMMR::from_elems(&cur, false);
-			cmp_backend(run, l, "push_after_rewind", &rp, &be, &r2, &cur);
 			l.case(&[6, (size - p).min(20), n.count_ones() as u64]);
 			p += NTHREADS as u64;
 		}
@@ -2277,11 +2289,11 @@ fn main() {
 
 	// bounds per tier (oracles are identical)
 	let (nl_bits, b_random, c2_leaves, c2_programs, c3_hi_bits, c3_lo_bits, d_leaves, e_leaves) = if san {
-		(8u32, 5_000usize, 48usize, 6usize, 10u64, 6u64, 24usize, 60usize)
+		(8u32, 5_000usize, 64usize, 6usize, 10u64, 6u64, 24usize, 60usize)
 	} else if thorough {
-		(15, 3_000_000, 1024, 320, 20, 13, 512, 3000)
+		(15, 3_000_000, 4096, 320, 20, 13, 512, 3000)
 	} else {
-		(11, 250_000, 256, 48, 17, 10, 128, 300)
+		(11, 250_000, 1024, 48, 17, 10, 128, 300)
 	};
 	let nl = 1usize << nl_bits;
 	let scale = if san { 3.0 } else { 1.0 }; // sanitizer builds are slow; workloads are 1/10
